@@ -165,17 +165,25 @@ func genOps(c *vf.Ctx, i int, single bool) []op {
 	}
 	ops := []op{{Kind: "write", Arg: 0}}
 	w, l := 1, 0
-	if single && i%2 == 0 {
+	dk := (i / 3) % 3 // which directed prefix a single-node history gets
+	if single && dk == 0 {
 		// directed: write, boot, write, plain join (no truncation), ...
 		ops = append(ops, op{Kind: "write", Arg: 1}, op{Kind: "boot", Arg: 0}, op{Kind: "write", Arg: 2}, op{Kind: "join-plain"})
 		w, l = 3, 1
 	}
-	if single && i%2 == 1 {
-		// directed: incremental snapshots before a load that are still in the
+	motif := []string{"write", "write", "write", "snapshot", "write", "write", "write", "snapshot", "load", "write", "snapshot", "write", "snapshot", "write", "join"}
+	if dk == 2 {
+		// directed: a load applied by a freshly restarted process (started from its
+		// fingerprinted database file, with snapshots already in the store), then
+		// writes and a snapshot, then a node that joins by snapshot
+		motif = []string{"write", "write", "snapshot", "write", "restart", "load", "write", "write", "snapshot", "write", "join"}
+	}
+	if single && dk >= 1 {
+		// directed (dk == 1): incremental snapshots before a load that are still in the
 		// store when the load's full snapshot and later incrementals arrive, so
 		// that the automatic reap consolidates across the load; then a node joins
 		// by snapshot and has to end up with the loaded database plus later writes
-		for _, k := range []string{"write", "write", "write", "snapshot", "write", "write", "write", "snapshot", "load", "write", "snapshot", "write", "snapshot", "write", "join"} {
+		for _, k := range motif {
 			o := op{Kind: k}
 			switch k {
 			case "write":
@@ -491,7 +499,7 @@ func runHistory(c *vf.Ctx, dir string, i int) (res result) {
 func run(c *vf.Ctx) {
 	c.Rule("history = seeded sequence of 10-16 ops from {uniquely tagged non-idempotent write, load of a generated SQLite file (WAL- and DELETE-mode), load of the equivalent SQL dump text, boot (single-node histories), user snapshot, graceful restart, killed restart, late join with and without prior log truncation (also onto a booted single node), remove, invalid load (random bytes, header only, truncated file, corrupted pages behind a valid header, empty body)} on clusters of 1 or 3 real rqlited processes, requests sent to any node; after every op a marker barrier makes every live node apply the same prefix and each node's local state (level=none) must equal the model: last loaded database plus later acknowledged writes; an invalid load must be rejected and leave every node unchanged and usable. non-trivial = history with at least one successful load/boot followed by a restart, late join or snapshot; distinct by case")
 	c.Assume("model state = counter + ordered tag list (tables c, t); loads replace both")
-	nH := c.N(6, 90)
+	nH := c.N(9, 90)
 	tmp := vf.TempDir("c22")
 	defer os.RemoveAll(tmp)
 	results := make([]result, nH)
@@ -505,7 +513,14 @@ func run(c *vf.Ctx) {
 			defer func() { <-sem }()
 			dir := filepath.Join(tmp, fmt.Sprintf("h%d", i))
 			os.MkdirAll(dir, 0755)
+			if v := os.Getenv("C22_ONLY"); v != "" && v != fmt.Sprint(i) {
+				results[i] = result{Case: i, Inconcl: "skipped: C22_ONLY"}
+				return
+			}
 			results[i] = runHistory(c, dir, i)
+			if k := os.Getenv("C22_KEEP"); k != "" {
+				sqlref.CopyTree(dir, filepath.Join(k, fmt.Sprintf("h%d", i)))
+			}
 			os.RemoveAll(dir)
 		}(i)
 	}
